@@ -12,7 +12,7 @@
    number of such contributions, counted with multiplicity. *)
 From Coq Require Import List NArith Arith Bool.
 From Verif.Common Require Import Labels Prefix.
-From Verif.C04 Require Import Model Spec Sets Refs Counts Proofs State Inv Main.
+From Verif.C04 Require Import Model Spec Sets Refs Counts Proofs State Inv Main View ViewThms MeetsSpec.
 Import ListNotations.
 
 (* Each member once however many endpoints contribute it: over any history, any iteration order and
@@ -75,6 +75,57 @@ Theorem c04_suppressed_same_cover : forall shuffle prune_ep prune_set ops st evs
       (forall c, truth st s (MCidr c) -> exists v, In (MCidr v) (F sid) /\ ccovers v c = true).
 Proof. exact c04_suppressed_same_cover_proof. Qed.
 Print Assumptions c04_suppressed_same_cover.
+
+
+(* ---- the same statements against the DATASTORE VIEW of Spec.v (view_of ops = the last value written
+   for every endpoint / network set, profile and IP set; spec_members = the members the rule selects
+   there).  [op_interned sel_of]: selectors with the same canonical text (what Selector.Equal compares)
+   mean the same — the subject of C06. ---- *)
+
+(* Without suppression: every IP set's accumulated emitted members are exactly (as a set, each once) the
+   contributions of the endpoints and network sets whose effective labels match its selector. *)
+Theorem c04_members_exact_view : forall sel_of shuffle prune_ep prune_set ops st evss,
+  oracles_ok shuffle prune_ep prune_set -> Forall op_wf ops -> Forall (op_interned sel_of) ops ->
+  run false shuffle prune_ep prune_set empty_state ops = (st, evss) ->
+  exists F, replay_f (fun _ => []) ops evss = Some F /\
+    forall sid vs, alookup sid (v_sets (view_of ops)) = Some vs ->
+      NoDup (F sid) /\ forall m, In m (F sid) <-> In m (spec_members (view_of ops) vs).
+Proof. exact c04_members_exact_view_proof. Qed.
+Print Assumptions c04_members_exact_view.
+
+(* Named-port sets: exactly the (address, port, protocol) combinations of matching endpoints' named ports,
+   with either suppressor setting. *)
+Theorem c04_named_port_exact_view : forall sel_of sup shuffle prune_ep prune_set ops st evss,
+  oracles_ok shuffle prune_ep prune_set -> Forall op_wf ops -> Forall (op_interned sel_of) ops ->
+  run sup shuffle prune_ep prune_set empty_state ops = (st, evss) ->
+  exists F, replay_f (fun _ => []) ops evss = Some F /\
+    forall sid vs, alookup sid (v_sets (view_of ops)) = Some vs ->
+      forall f a p q, In (MPort f a p q) (F sid) <-> In (MPort f a p q) (spec_members (view_of ops) vs).
+Proof. exact c04_named_port_exact_view_proof. Qed.
+Print Assumptions c04_named_port_exact_view.
+
+(* With suppression: the emitted CIDRs are an antichain, each is a selected CIDR, and every selected CIDR
+   lies inside an emitted one — so both cover exactly the same addresses. *)
+Theorem c04_suppressed_view : forall sel_of shuffle prune_ep prune_set ops st evss,
+  oracles_ok shuffle prune_ep prune_set -> Forall op_wf ops -> Forall (op_interned sel_of) ops ->
+  run true shuffle prune_ep prune_set empty_state ops = (st, evss) ->
+  exists F, replay_f (fun _ => []) ops evss = Some F /\
+    forall sid vs, alookup sid (v_sets (view_of ops)) = Some vs ->
+      (forall a b, In (MCidr a) (F sid) -> In (MCidr b) (F sid) -> ccovers a b = true -> a = b) /\
+      (forall c, In (MCidr c) (F sid) -> In (MCidr c) (spec_members (view_of ops) vs)) /\
+      (forall c, In (MCidr c) (spec_members (view_of ops) vs) ->
+                 exists e, In (MCidr e) (F sid) /\ ccovers e c = true).
+Proof. exact c04_suppressed_view_proof. Qed.
+Print Assumptions c04_suppressed_view.
+
+(* The specification oracle of Spec.v — the one the correspondence run applies to the implementation's
+   own event stream — accepts every run of the model: every history, either suppressor setting, every
+   iteration order, every sound pruning. *)
+Theorem c04_model_meets_spec : forall sel_of sup shuffle prune_ep prune_set ops,
+  oracles_ok shuffle prune_ep prune_set -> Forall op_wf ops -> Forall (op_interned sel_of) ops ->
+  ok_trace sup ops (snd (run sup shuffle prune_ep prune_set empty_state ops)) = true.
+Proof. exact c04_model_meets_spec_proof. Qed.
+Print Assumptions c04_model_meets_spec.
 
 (* Named-port members always carry a real protocol (TCP, UDP or SCTP), never "none". *)
 Theorem c04_named_port_protocol : forall e, protocol_from e <> P_NONE.
